@@ -26,7 +26,9 @@ def check_mean(mean: MeanType, X: np.ndarray) -> np.ndarray:
     mean : np.ndarray
         Fixed mean for the cost calculation.
     """
-    mean = np.array([mean]) if isinstance(mean, numbers.Number) else np.asarray(mean)
+    # float64 whatever was given (int, np.float32, 0-d array, ...): the costs compute
+    # with the parameter's dtype.
+    mean = np.asarray(mean, dtype=np.float64).reshape(-1)
     if len(mean) != 1 and len(mean) != X.shape[1]:
         raise ValueError(f"mean must have length 1 or X.shape[1], got {len(mean)}.")
     return mean
@@ -47,7 +49,7 @@ def check_var(var: VarType, X: np.ndarray) -> np.ndarray:
     var : np.ndarray
         Fixed variance for the cost calculation.
     """
-    var = np.array([var]) if isinstance(var, numbers.Number) else np.asarray(var)
+    var = np.asarray(var, dtype=np.float64).reshape(-1)
     if len(var) != 1 and len(var) != X.shape[1]:
         raise ValueError(f"var must have length 1 or X.shape[1], got {len(var)}.")
 
@@ -72,7 +74,9 @@ def check_cov(cov: CovType, X: np.ndarray) -> np.ndarray:
         Fixed covariance matrix for the cost calculation.
     """
     p = X.shape[1]
-    cov = cov * np.eye(p) if isinstance(cov, numbers.Number) else np.asarray(cov)
+    cov = np.asarray(cov, dtype=np.float64)
+    if cov.ndim == 0:
+        cov = cov * np.eye(p)
 
     if cov.ndim != 2:
         raise ValueError(f"cov must have 2 dimensions, got {cov.ndim}.")
